@@ -369,4 +369,12 @@ def main(argv):
         "distribution": dist,
         "phase_seconds": phases,
     })
+    # composition hypotheses on the real mirror, along whole histories in which the validator set and its total power
+    # change at every height and rounds fail: what is committed carries a >2/3 certificate of the set the chain prescribes
+    # (Monitors/MirrorM.v c01_obs_ok) and every threshold is read from a summary recomputed from the view's own set
+    # (c06_obs_ok). The engines of the scenarios above keep one validator set; this run covers the changing ones.
+    if not c.replay or "batch_seed" in json.load(open(c.replay)):
+        import mirrorlib
+        mirrorlib.mirror_check(c, "C03", ["c01", "c06"], "C03 composition hypotheses along mirror histories", quick=(24, 40),
+                               thorough=(300, 50), extra=[], prove=False)
     c.finish()
